@@ -4,7 +4,8 @@ CFG = {
     "id": "C01", "harness": "c01",
     "check_vo": "theories/Check/C01.vo", "prop_vo": "theories/Properties/C01.vo",
     "prop_file": "theories/Properties/C01.v",
-    "theory_files": ["theories/Mesh/Heap.v", "theories/Mesh/HeapProofs.v", "theories/Mesh/HeapCommute.v"],
+    "theory_files": ["theories/Mesh/Heap.v", "theories/Mesh/HeapProofs.v", "theories/Mesh/HeapCommute.v",
+                     "theories/Mesh/HeapRefine.v"],
     "level_text": "Coq theorems about a heap-level model of modeling.Mesh (Go slices {ptr,len,cap} into an append-only table "
                   "of backing arrays; every mesh operation modelled by which arrays it reads, allocates, shares and writes): "
                   "for every growth policy of append(), every history of operations, every pool member and every later "
